@@ -171,7 +171,10 @@ func FQStep(st *FQState, in FQOp, out FQOut) (bool, *FQState) {
 		n.Quotes[in.Quote] = q
 		return true, n
 	case "QExpired":
-		return out.Bool == (st.Quotes[in.Quote].expiry < st.Clock), st
+		// Not constrained here: an expiry check combines a stored expiry with a clock reading, and the clock is not
+		// an object the quote guards. It is judged separately (ExpiredExplained): the answer must be explained by SOME
+		// expiry value the quote could have held during the call and SOME clock value shown during the call.
+		return true, st
 	case "QMarshal":
 		return out.Err == ErrNone && sameFees(out.Fees, st.Quotes[in.Quote].fees), st
 	case "QUnmarshal":
@@ -264,4 +267,63 @@ func (in FQOp) Describe(out FQOut) string {
 		return fmt.Sprintf("UpdateMinerFees(%s,%s,fee#%d empty=%v) -> %s", in.Miner, in.Type, in.Fee, in.Empty, out.Err)
 	}
 	return in.Kind
+}
+
+// Interval is one recorded operation for ExpiredExplained.
+type Interval struct {
+	Call, Ret int64
+	In        FQOp
+	Out       FQOut
+}
+
+// ExpiredExplained checks every Expired() answer of a history: it must equal e < c for an expiry value e that a
+// write stored and that could still have been current at some instant of the call, and a clock value c that the
+// clock showed at some instant of the call. Returns a description of the first unexplained answer, or "".
+func ExpiredExplained(h []Interval, initExpiry, initClock int64) string {
+	type w struct {
+		call, ret, val int64
+	}
+	for _, op := range h {
+		if op.In.Kind != "QExpired" {
+			continue
+		}
+		cands := func(kind string, quote int, init int64) []int64 {
+			ws := []w{{-1, -1, init}}
+			for _, o := range h {
+				if o.In.Kind == kind && (kind == "ClockSet" || o.In.Quote == quote) {
+					ws = append(ws, w{o.Call, o.Ret, o.In.Time})
+				}
+			}
+			var out []int64
+			for i, a := range ws {
+				if a.call > op.Ret {
+					continue // started after the answer was given
+				}
+				overwritten := false
+				for j, b := range ws {
+					if i != j && b.call > a.ret && b.ret < op.Call {
+						overwritten = true // a later write had completed before the call began
+					}
+				}
+				if !overwritten {
+					out = append(out, a.val)
+				}
+			}
+			return out
+		}
+		es := cands("QUpdateExpiry", op.In.Quote, initExpiry)
+		cs := cands("ClockSet", 0, initClock)
+		ok := false
+		for _, e := range es {
+			for _, c := range cs {
+				if (e < c) == op.Out.Bool {
+					ok = true
+				}
+			}
+		}
+		if !ok {
+			return fmt.Sprintf("Q%d.Expired() over [%d..%d] answered %v, but every expiry it could have seen %v compared with every clock value shown during the call %v says otherwise", op.In.Quote, op.Call, op.Ret, op.Out.Bool, es, cs)
+		}
+	}
+	return ""
 }
